@@ -50,6 +50,10 @@ pub struct C11 {
 	/// verified by each party
 	queue: Vec<Step>,
 	reorg_scripts_left: u32,
+	/// scripted: a proof-carrying send from an account that is not the active one,
+	/// carried through to the chain, then exported and verified by everybody
+	src_script: Option<crate::gen::SendScript>,
+	src_scripts_left: u32,
 }
 
 fn proof_msg(amount: u64, excess: &Commitment, sender: &ed25519_dalek::PublicKey) -> Vec<u8> {
@@ -83,6 +87,8 @@ impl C11 {
 			p_mutate,
 			queue: vec![],
 			reorg_scripts_left: if run.rng.chance(1, 2) { 1 } else { 0 },
+			src_script: None,
+			src_scripts_left: if run.rng.chance(1, 2) { 1 } else { 0 },
 		}
 	}
 }
@@ -111,7 +117,23 @@ impl Prop for C11 {
 		}
 		let id = ex.msgs[m].slate.id;
 		let so = ex.world.owner(sender);
-		let mut proof = match so.retrieve_payment_proof(ex.world.mask(sender).as_ref(), false, None, Some(id)) {
+		// the proof is exported from the account the payment was sent from (the user
+		// switches to it; a send may have named a source account other than the active one)
+		let ssnap = ex.world.snap(sender);
+		let src = ssnap
+			.txs
+			.iter()
+			.find(|t| t.tx_slate_id == Some(id) && t.tx_type == grin_wallet_libwallet::TxLogEntryType::TxSent)
+			.map(|t| ssnap.acct_label(&t.parent_key_id));
+		let switched = match &src {
+			Some(l) if *l != ssnap.active => so.set_active_account(ex.world.mask(sender).as_ref(), l).is_ok(),
+			_ => false,
+		};
+		let exported = so.retrieve_payment_proof(ex.world.mask(sender).as_ref(), false, None, Some(id));
+		if switched {
+			let _ = so.set_active_account(ex.world.mask(sender).as_ref(), &ssnap.active);
+		}
+		let mut proof = match exported {
 			Ok(p) => p,
 			Err(e) => return OpRes::Skipped(format!("no proof to export: {}", e)),
 		};
@@ -187,6 +209,73 @@ impl Prop for C11 {
 		}
 		if let Some(s) = self.queue.pop() {
 			return Some(s);
+		}
+		if let Some(sc) = self.src_script.as_mut() {
+			match sc.next() {
+				Some(s) => return Some(s),
+				None => {
+					let sc = self.src_script.take().unwrap();
+					if !sc.failed {
+						if let Some(m1) = sc.m1 {
+							let nw = run.ex.world.wallets.len();
+							let mut seq = vec![];
+							for w in 0..nw {
+								seq.push(Step::new(Op::Refresh { w }));
+								seq.push(Step::new(Op::Custom {
+									name: "verify_proof".into(),
+									args: json!({"w": w, "sender": sc.a, "m": m1, "mut": "none", "arg": 0}),
+								}));
+							}
+							run.cov.probe("proof_of_a_send_from_a_non_active_account_verified");
+							seq.reverse();
+							self.queue = seq;
+							return self.queue.pop();
+						}
+					}
+				}
+			}
+		}
+		if self.gen.setup_done && self.src_scripts_left > 0 && run.rng.chance(1, 6) && !run.ex.world.chain.is_down() {
+			// a wallet with funds in an account other than the active one
+			let nw = run.ex.world.wallets.len();
+			let tip = run.ex.world.chain.height();
+			let mut cands: Vec<(usize, String, u64)> = vec![];
+			for w in 0..nw {
+				if !run.ex.world.is_open(w) {
+					continue;
+				}
+				let snap = run.ex.world.snap(w);
+				for a in &snap.accts {
+					if a.label == snap.active {
+						continue;
+					}
+					let sp: u64 = snap
+						.outputs
+						.iter()
+						.filter(|o| o.root_key_id == a.path && o.status == grin_wallet_libwallet::OutputStatus::Unspent && o.lock_height <= tip)
+						.map(|o| o.value)
+						.sum();
+					if sp > 2_000_000_000 {
+						cands.push((w, a.label.clone(), sp));
+					}
+				}
+			}
+			if !cands.is_empty() && nw >= 2 {
+				let (a, label, sp) = run.rng.pick(&cands).clone();
+				let b = (a + 1 + run.rng.idx(nw - 1)) % nw;
+				if run.ex.world.is_open(b) {
+					self.src_scripts_left -= 1;
+					let mut args = crate::ops::SendArgs::simple(sp / 4 + run.rng.below(1000));
+					args.min_conf = 1;
+					args.max_outputs = 500;
+					args.num_change = 1;
+					args.src_acct = Some(label);
+					args.proof_to = Some(b);
+					args.late_lock = run.rng.chance(1, 4);
+					self.src_script = Some(crate::gen::SendScript::new(a, b, args, 6));
+					return self.src_script.as_mut().unwrap().next();
+				}
+			}
 		}
 		// scripted: both parties see the proof transaction confirmed, the chain
 		// re-organises it away, then sender, recipient and a bystander verify the proof
@@ -287,6 +376,9 @@ impl Prop for C11 {
 	fn after(&mut self, run: &mut Run, step: &Step, out: &StepOut) -> Vec<Violation> {
 		let mut v = vec![];
 		self.gen.feedback(run, step, out);
+		if let Some(sc) = self.src_script.as_mut() {
+			sc.feedback(step, out);
+		}
 		if let Op::Mutate { .. } = &step.op {
 			if out.new_msg.is_none() {
 				self.pending_mut = None;
